@@ -21,13 +21,13 @@ import (
 // Error kinds a scripted log can answer with.
 const (
 	errNone        = 0
-	err429         = 1 // jsonclient.RspError 429
-	err503         = 2 // jsonclient.RspError 503
-	err500         = 3 // jsonclient.RspError 500
-	errNet         = 4 // *url.Error{*net.OpError}
-	errEOF         = 5 // io.ErrUnexpectedEOF (connection dropped mid-body)
-	errTimeout     = 6 // *url.Error wrapping context.DeadlineExceeded (http.Client timeout)
-	errUnavailable = 7 // gRPC-status Unavailable: the only kind trillian's backoff.Retry itself retries (with pauses)
+	err429         = 1  // jsonclient.RspError 429
+	err503         = 2  // jsonclient.RspError 503
+	err500         = 3  // jsonclient.RspError 500
+	errNet         = 4  // *url.Error{*net.OpError}
+	errEOF         = 5  // io.ErrUnexpectedEOF (connection dropped mid-body)
+	errTimeout     = 6  // *url.Error wrapping context.DeadlineExceeded (http.Client timeout)
+	errUnavailable = 7  // gRPC-status Unavailable: the only kind trillian's backoff.Retry itself retries (with pauses)
 	errCanceled    = 8  // transport error wrapping context.Canceled (a proxy / dialer gave up), not the caller's context
 	errCutBody     = 9  // HTTP 200 whose JSON body is cut off (connection reset mid-response): the real client reports RspError{200}
 	errGarbled     = 10 // HTTP 200 with a body that is not JSON (an intermediary's error page)
@@ -78,6 +78,7 @@ type fakeLog struct {
 
 	mu          sync.Mutex
 	calls       map[int64]int
+	answered    map[int64]int // successful answers per start index within the current call
 	sthCalls    int
 	total       int
 	firstSTH    int64         // tree size of the first successful get-sth (-1: none yet)
@@ -91,10 +92,11 @@ type fakeLog struct {
 	maxInflight int
 	requests    int
 	grewAfter   bool // an STH bigger than the first one was handed out
+	maxBody     int  // largest get-entries body served over the HTTP route
 }
 
 func newFakeLog(c *Case, log []truth, abort func(sig, msg string)) *fakeLog {
-	return &fakeLog{c: c, log: log, start: time.Now(), abort: abort, calls: map[int64]int{}, firstSTH: -1, errs: map[int]int{}, sthPollErrs: map[int]int{}}
+	return &fakeLog{c: c, log: log, start: time.Now(), abort: abort, calls: map[int64]int{}, answered: map[int64]int{}, firstSTH: -1, errs: map[int]int{}, sthPollErrs: map[int]int{}}
 }
 
 func (f *fakeLog) BaseURI() string { return fakeURI }
@@ -104,6 +106,7 @@ func (f *fakeLog) BaseURI() string { return fakeURI }
 func (f *fakeLog) newPhase() {
 	f.mu.Lock()
 	f.calls = map[int64]int{}
+	f.answered = map[int64]int{}
 	f.mu.Unlock()
 }
 
@@ -197,7 +200,7 @@ func (f *fakeLog) countCall() bool {
 
 // entries is the scripted get-entries: the answer, or the kind of the scripted failure, or the context's error.
 func (f *fakeLog) entries(ctx context.Context, start, end int64) (*ct.GetEntriesResponse, int, error) {
-	if !f.direct && !f.countCall() {
+	if !f.countCall() {
 		return nil, errNone, context.Canceled
 	}
 	f.mu.Lock()
@@ -220,15 +223,15 @@ func (f *fakeLog) entries(ctx context.Context, start, end int64) (*ct.GetEntries
 	p := f.c.Plans[int(start%int64(len(f.c.Plans)))]
 	if n < len(p.Errs) {
 		if !vt.Sleep(ctx, time.Duration(p.ErrLatMs)*time.Millisecond) {
-			return nil, ctx.Err()
+			return nil, errNone, ctx.Err()
 		}
 		f.mu.Lock()
 		f.errs[p.Errs[n]]++
 		f.mu.Unlock()
-		return nil, mkErr(p.Errs[n])
+		return nil, p.Errs[n], nil
 	}
 	if !vt.Sleep(ctx, time.Duration(p.LatMs)*time.Millisecond) {
-		return nil, ctx.Err()
+		return nil, errNone, ctx.Err()
 	}
 	f.mu.Lock()
 	announced := f.maxSTH
@@ -236,7 +239,7 @@ func (f *fakeLog) entries(ctx context.Context, start, end int64) (*ct.GetEntries
 	if start >= announced {
 		// nothing the log ever announced covers this index: a real log answers 400 for ever
 		f.abort("request-beyond-sth", fmt.Sprintf("get-entries start=%d end=%d but the largest tree size announced is %d", start, end, announced))
-		return nil, context.Canceled
+		return nil, errNone, context.Canceled
 	}
 	if end >= announced {
 		end = announced - 1
@@ -256,6 +259,16 @@ func (f *fakeLog) entries(ctx context.Context, start, end int64) (*ct.GetEntries
 	if k < asked {
 		f.shortReads++
 	}
+	f.answered[start]++
+	again := f.answered[start]
 	f.mu.Unlock()
-	return resp, nil
+	if again > maxAnswersPerStart {
+		// the log keeps answering this request correctly and the fetcher keeps asking for it again: the
+		// entries do not get through (no virtual time passes in such a loop, so this is the way out)
+		f.abort("answered-request-repeated", fmt.Sprintf("get-entries start=%d end=%d was answered correctly (%d entries) %d times within one call and is still being asked for", start, end, k, again))
+		return nil, errNone, context.Canceled
+	}
+	return resp, errNone, nil
 }
+
+const maxAnswersPerStart = 25
